@@ -37,6 +37,25 @@ def scenarios(rng, tier):
             s.frame(0, emit(M, own, descs, seq=rng.randrange(1, 65536)))
         else:
             s.frame(0, emit(M, own, [], seq=rng.randrange(1, 65536), count=0))
+    # the largest Emit a frame can carry, for every residue of (MTU-34) mod 14 (the frame filled exactly, or up to 13 bytes
+    # short of it) - and one more than that
+    for r_ in range(14):
+        mtu = 576 + ((r_ - (576 - 34)) % 14) + 14 * rng.choice([0, 1, 50, 66]); cap = (mtu - 34) // 14
+        cfg = Cfg(0, mtu=mtu); own = cfg.own(); M = mac(1)
+        s.start('fit_%d_%d' % (r_, mtu)); s.lines.append(cfg.line()); s.frame(0, discover(M, gen=1))
+        for cnt in (cap, cap - 1, cap + 1):
+            descs = [(j % 2, 0, mac(5000 + j), mac(6000 + j)) for j in range(min(cnt, cap))]
+            s.frame(0, emit(M, own, descs, seq=100 + cnt % 50, count=cnt))
+    # several refused transmissions in a row (a whole Emit's worth and more), the fault clears, the mapper goes on
+    for k in range(6 if tier == 'quick' else 60):
+        cfg = Cfg(0, mtu=1500); own = cfg.own(); M = mac(1); nref = [1, 3, 4, 5, 8, 12][k % 6]
+        s.start('refused_%d' % k); s.lines.append(cfg.line()); s.frame(0, discover(M, gen=1))
+        s.op('failsend from 1')
+        left = nref; sq = 10
+        while left > 0:
+            nd = min(left, 3); s.frame(0, emit(M, own, [(1, 0, mac(7), mac(8))] * nd, seq=sq)); sq += 1; left -= nd + 1
+        s.op('failsend clear')
+        s.frame(0, emit(M, own, [(1, 1, mac(17), mac(18)), (0, 0, mac(19), mac(20))], seq=sq)); s.frame(0, emit(M, own, [(0, 2, mac(21), mac(22))], seq=sq + 1))
     for k in range(20 if tier == 'quick' else 400):
         cfg = Cfg(0, mtu=rng.choice([576, 1500, 65536, 70000])); own = cfg.own(); M = mac(1)
         s.start('txf_%d' % k); s.lines.append(cfg.line()); s.frame(0, discover(M, gen=1)); s.frame(0, discover(M, gen=1, tos=1))
